@@ -112,10 +112,30 @@ impl Engine for E {
                     ("agg.verify_aggregate_sig.mut.other_key", 250 * m),
                     ("agg.hybrid.mut.other_key", 250 * m),
                     ("agg.trusted_keys.same_msg.mut.other_key", 120 * m),
-                    ("agg.same_msg.size.150", 10 * m),
-                    ("agg.same_msg.size.151", 10 * m),
+                    ("agg.same_msg.size.150", 8 * m),
+                    ("agg.same_msg.size.151", 8 * m),
+                    ("agg.same_msg.size.200", 8 * m),
+                    ("agg.same_msg.size.301", 8 * m),
+                    ("agg.hybrid.keys_per_message.150.accept", 8 * m),
+                    ("agg.hybrid.keys_per_message.151.accept", 8 * m),
+                    ("agg.hybrid.keys_per_message.200.accept", 8 * m),
+                    ("agg.hybrid.keys_per_message.301.accept", 8 * m),
+                    ("agg.hybrid.keys_per_message.150.reject", 8 * m),
+                    ("agg.hybrid.keys_per_message.151.reject", 8 * m),
+                    ("agg.hybrid.keys_per_message.200.reject", 8 * m),
+                    ("agg.hybrid.keys_per_message.301.reject", 8 * m),
+                    ("agg.trusted_keys.keys_per_message.150.accept", 8 * m),
+                    ("agg.trusted_keys.keys_per_message.301.accept", 8 * m),
+                    ("ps.known.verify.too_long", 250 * m),
+                    ("ps.blind.verify.too_long", 250 * m),
+                    ("vrf.key.decode", 4_000 * m),
+                    ("vrf.key.decode.class.small-order", 2_000 * m),
+                    ("vrf.key.decode.class.not-on-curve", 500 * m),
+                    ("vrf.key.decode.class.valid", 800 * m),
+                    ("vrf.key.decode.origin.small-order", 2_000 * m),
+                    ("vrf.key.roundtrip", 800 * m),
                     ("agg.size.17", 25 * m),
-                    ("max.hybrid_group", 151),
+                    ("max.hybrid_group", 301),
                     ("pop.same_key_same_context", 120 * m),
                     ("pop.other_key", 120 * m),
                     ("pop.other_context", 250 * m),
